@@ -214,6 +214,13 @@ class Extractor:
         while toks[j].t in MODIFIERS or (toks[j].t == 'const' and toks[j + 1].t in ('fn', 'unsafe', 'extern')):
             j += 1
         kw = toks[j].t
+        if kw == 'use':
+            k = j + 1
+            parts = []
+            while k < hi and toks[k].t != ';':
+                parts.append(toks[k].t)
+                k += 1
+            return 'use ' + ''.join(parts)
         if kw in ('fn', 'struct', 'enum', 'union', 'trait', 'mod', 'const', 'static', 'type'):
             return kw + ' ' + toks[j + 1].t
         if kw == 'impl':
@@ -265,7 +272,7 @@ class Extractor:
                 i = self.handle_attrs(i, hi, ctx)
                 continue
             # ---- item-level handling (only at positions where an item can start)
-            if depth == 0 and i != self._no_item_at and t.k == 'id' and (t.t in ITEM_KW or t.t in ('pub', 'unsafe', 'const', 'static', 'type', 'macro_rules') or
+            if depth == 0 and i != self._no_item_at and t.k == 'id' and (t.t in ITEM_KW or t.t in ('pub', 'unsafe', 'const', 'static', 'type', 'macro_rules', 'use') or
                                 (i + 1 < hi and toks[i + 1].t == '!')) and self._at_item_start(i, lo):
                 nm = self.item_name(i, hi)
                 if nm is not None:
@@ -354,7 +361,7 @@ class Extractor:
 
     def will_drop(self, nm, ctx):
         full = (ctx + '::' + nm) if ctx else nm
-        if ctx is None and self.only_items is not None and nm not in self.only_items and not nm.startswith('use'):
+        if ctx is None and self.only_items is not None and nm not in self.only_items:
             return True
         return any(full == d or full.endswith('::' + d) for d in self.drop_items)
 
